@@ -11,7 +11,8 @@ from TexSoup import TexSoup
 from TexSoup.data import TexExpr, TexText, TexNode
 from TexSoup.utils import CharToLineOffset, Token
 
-ATOMS = ['\\x', '{', '}', '[', ']', '$', '%c\n', 'ab', ' ', '\n', '\\begin{a}', '\\end{a}', '\\item', '\\[', '\\]', '\\\\']
+ATOMS = ['\\x', '{', '}', '[', ']', '$', '%c\n', 'ab', ' ', '\n', '\\begin{a}', '\\end{a}', '\\item', '\\[', '\\]', '\\\\',
+         '\\begin{verbatim}', '\\end{verbatim}']
 
 
 def walk(expr):
